@@ -201,12 +201,20 @@ class Trace:
     def wait(self, c, ms):
         self.events.append(("W", c, ms))
 
-    def register(self, c, nick, user=None, real=None, password=None):
+    def register(self, c, nick, user=None, real=None, password=None, user_first=None):
+        """registers connection c; the order of NICK and USER alternates with the connection number unless given
+        (both orders are legal and must give the same identity: seeded change C01-c)"""
         self.open(c)
         if password is not None:
             self.line(c, "PASS " + password)
-        self.line(c, "NICK " + nick)
-        self.line(c, "USER %s 8 * :%s" % (user or nick, real or ("Real " + nick)))
+        if user_first is None:
+            user_first = (c % 3 == 1)
+        if user_first:
+            self.line(c, "USER %s 8 * :%s" % (user or nick, real or ("Real " + nick)))
+            self.line(c, "NICK " + nick)
+        else:
+            self.line(c, "NICK " + nick)
+            self.line(c, "USER %s 8 * :%s" % (user or nick, real or ("Real " + nick)))
 
     def render(self):
         o = ["T %s" % self.id, "C %s" % hx(self.cfg.to_toml())]
